@@ -1,6 +1,7 @@
 INIT Init
 NEXT Next
-CONSTANT MaxDen = 4
+CONSTANT DenLo = 1
+CONSTANT DenHi = 4
 CONSTANT MaxLen = 4
 CONSTANT MaxAmt = 200
 CONSTANT Dense = 40
